@@ -2,13 +2,16 @@ package props
 
 import (
 	"fmt"
-	"golang.org/x/tools/go/ssa"
 	"sort"
-	"voicheck/edt"
+	"strings"
+
+	"golang.org/x/tools/go/ssa"
 
 	"voicheck/easm"
+	"voicheck/edt"
 	"voicheck/emod"
 	"voicheck/load"
+	"voicheck/report"
 )
 
 // Shared precomputed object types (module-relative): values of these types
@@ -31,6 +34,38 @@ var sharedTypes = map[string]bool{
 	"primitives/ed25519.ExpandedPublicKey":       true,
 }
 
+// sharedHandles: lock-free handle types of which ONE value serves every goroutine ("a shared
+// caching verifier"): after construction no function stores into the value's own fields (per-call
+// state lives in locals; the state behind its pointers has its own lock, see LOCK-*).
+var sharedHandles = map[string]bool{
+	"primitives/ed25519/extra/cache.Verifier": true,
+}
+
+// checkSharedHandles: a store, copy or written call argument whose address is a field (or a part
+// of a field) of a shared handle, reached without a load, of a value not freshly allocated there.
+func checkSharedHandles(p *load.Program, m *emod.Mod, rule *report.Rule) {
+	seen := map[string]bool{}
+	for _, hw := range m.OwnFieldWrites(sharedHandles, load.Rel) {
+		via := ""
+		if hw.Via != "" {
+			via = " (written by " + hw.Via + ")"
+		}
+		rule.Fail(p.Pos(hw.Pos), load.FuncName(hw.Fn), "stores into a field of the shared handle "+hw.Type+" after construction"+via+": concurrent callers of the one shared value overwrite each other's state (keep per-call state in locals)", nil)
+	}
+	for k := range sharedHandles {
+		i := strings.LastIndexByte(k, '.')
+		obj := p.Obj(k[:i], k[i+1:])
+		if obj == nil {
+			rule.Fail("-", k, "shared handle type cannot be resolved (anchor lost)", nil)
+			continue
+		}
+		if !seen[k] {
+			seen[k] = true
+			rule.OK(k)
+		}
+	}
+}
+
 // sharedWriters: the only functions allowed to write through a parameter of
 // a shared type — the type's own initialisers (confirmed by reading).
 var sharedWriters = map[string]string{
@@ -50,6 +85,7 @@ func init() {
 		gst := run.Rule("GLOBAL-store", "no store to memory rooted at a package-level variable outside package initialisation (directly or through a written call argument)", 400).RequireControl(1)
 		lru := run.Rule("DT-lru", "the LRU cache stores a new entry holding exactly the given expanded key under the given key and evicts the oldest element's own entry exactly at capacity", 3)
 		shf := run.Rule("SHARED-fresh", "initialisers of shared precomputed types install freshly allocated tables and never write through a table pointer loaded from the object", 2)
+		shh := run.Rule("SHARED-handle", "no function stores into the own fields of a lock-free handle shared by all goroutines (the caching verifier) after construction", 1)
 		shr := run.Rule("SHARED-readonly", "no function writes through a parameter of a shared precomputed type except that type's own initialisers", 60).RequireControl(1)
 		lacc := run.Rule("LOCK-access", "every access to a field of a mutex-containing struct holds the lock (or is in a constructor / a helper whose callers all hold it)", 8).RequireControl(1)
 		latm := run.Rule("LOCK-atomic", "every externally callable method of a mutex-containing struct takes the lock first and releases it by defer", 2).RequireControl(1)
@@ -57,6 +93,9 @@ func init() {
 		conc := run.Rule("NO-concurrency", "no goroutine, channel, sync/atomic or unsafe.Pointer conversion in library code (outside the allow-listed Keccak cast)", 400).RequireControl(1)
 		retf := run.Rule("RETURN-fresh", "byte slices returned by exported functions never alias the storage of the receiver or of a parameter (callers own and modify what they get)", 20)
 		inro := run.Rule("INPUT-readonly", "no exported function of a public package writes through an input parameter (callers share keys, scalars and messages between goroutines)", 200)
+		retn := run.Rule("INPUT-retain", "no exported function keeps a caller's byte slice in an object that outlives the call (the object would change when the caller re-uses its buffer)", 80)
+		rglb := run.Rule("RETURN-global", "no exported function hands out a pointer or slice into a package-level variable (shared constants and tables cannot be modified through an API result)", 100)
+		rdis := run.Rule("RESULT-disjoint", "two byte-slice results of one exported function never share storage", 1)
 		for _, id := range c.Configs() {
 			p := c.Prog(id)
 			run.SetConfig(id)
@@ -65,6 +104,9 @@ func init() {
 				run.Sample(st)
 			}
 			checkReturnFresh(p, retf, false)
+			checkInputRetain(p, retn, false)
+			checkResultDisjoint(p, rdis, false)
+			checkReturnGlobal(p, rglb, false)
 			asmWrites := map[string][]int{}
 			if len(p.Pkg("internal/field").OtherFiles)+len(p.Pkg("curve").OtherFiles)+len(p.Pkg("internal/strobe").OtherFiles) > 0 {
 				ares := easm.Lint(run, p, "ASM", nil)
@@ -113,6 +155,7 @@ func init() {
 				shr.Fail(p.Pos(u.Fn.Pos()), name, fmt.Sprintf("may write through its parameter #%d of shared type %s (only the type's own initialisers may)", u.Param, u.Type), nil)
 			}
 			checkSharedFresh(p, shf)
+			checkSharedHandles(p, m, shh)
 			if id == c.Configs()[0] {
 				// sequential specification of the LRU cache (what "atomic" operations must do): same table as C09
 				ecfg := &edt.Config{P: p, Mod: m}
